@@ -8,7 +8,8 @@ Open Scope N_scope.
 
 Inductive split_kind :=
 | SplitLast (c : N)      (* rsplit(c, 1) / rpartition(c), guarded by `c in filename` *)
-| SplitFirst (c : N).    (* split(c, 1) / partition(c) *)
+| SplitFirst (c : N)     (* split(c, 1) / partition(c) *)
+| SplitExt.              (* os.path.splitext(filename), the extension taken without its dot *)
 
 (** split at the first occurrence of [c] *)
 Fixpoint split1 (c : N) (s : bytes) : option (bytes * bytes) :=
@@ -18,8 +19,19 @@ Fixpoint split1 (c : N) (s : bytes) : option (bytes * bytes) :=
               else match split1 c r with Some (a, b) => Some (x :: a, b) | None => None end
   end.
 
+(** posixpath.splitext, as (root, extension without the dot); [None] = no extension: there is no '.', or the last '.' comes before the
+    last '/', or only dots stand between the last '/' (or the start) and the last '.' — a leading-dot name like `.gitignore` has none *)
+Definition splitext (s : bytes) : option (bytes * bytes) :=
+  match rsplit1 46 s with
+  | None => None
+  | Some (a, b) =>
+      if existsb (N.eqb 47) b then None
+      else let base := match rsplit1 47 a with Some (_, t) => t | None => a end in
+           if forallb (N.eqb 46) base then None else Some (a, b)
+  end.
+
 Definition split_at (k : split_kind) (s : bytes) : option (bytes * bytes) :=
-  match k with SplitLast c => rsplit1 c s | SplitFirst c => split1 c s end.
+  match k with SplitLast c => rsplit1 c s | SplitFirst c => split1 c s | SplitExt => splitext s end.
 
 (** `if not ext and c in filename: filename, ext = <split>` *)
 Definition split_ext_k (k : split_kind) (fn ext : bytes) : bytes * bytes :=
@@ -37,4 +49,4 @@ Definition file_parts_k (normpath : bytes -> bytes) (k : split_kind) (f : namefo
   let '(n, e) := split_ext_k k fn ext in (e, norm_dir normpath p, n).
 
 (** the extension is what follows the last '.' *)
-Definition split_kind_ok (k : split_kind) : bool := match k with SplitLast c => c =? 46 | SplitFirst _ => false end.
+Definition split_kind_ok (k : split_kind) : bool := match k with SplitLast c => c =? 46 | _ => false end.
